@@ -516,6 +516,24 @@ func (w *World) Closed() {
 	w.Srv = nil
 }
 
+// Abandon gives the world up without closing the server (used when the server is known to be in a state in which
+// Close cannot return, e.g. a session state the harness provoked it to leak): connections, listener and the Serve
+// context are released, the directories removed; the server's goroutines stay for the rest of the process.
+func (w *World) Abandon() {
+	if w.Srv != nil {
+		for _, s := range w.Sess {
+			_ = s.C.End.Close()
+			s.Dead = true
+		}
+		w.stop()
+		_ = w.Lis.Close()
+		w.Srv = nil
+	}
+	if w.Cfg.Dir == "" {
+		_ = os.RemoveAll(w.Dir)
+	}
+}
+
 func (w *World) Close() {
 	if w.Srv != nil {
 		_ = w.Shutdown()
